@@ -198,3 +198,23 @@ Qed.
 (* no Close operation, no transport error, no record that is not JSON: the client has not stopped *)
 Theorem never_closed_never_stops c tr s : traces_to c tr s -> Forall good_label tr -> err s = None.
 Proof. intros [oss H] G. exact (ns_err _ (nostop_run tr _ _ _ (nostop_init c) G H)). Qed.
+
+(* non-vacuity: a call answered by the peer; and the premise matters: a transport error stops the client *)
+Definition ns_trace (f : feed) (tail : list label) : list label :=
+  [LOp 0 KCall [ex_spec 49]; LRelReq 0; LRelSend 0; LFeed f] ++ tail.
+
+Example never_closed_never_stops_nonvacuous :
+  (exists s, traces_to ex_cfg (ns_trace (FMsg (InMsgs false [ex_reply [49%N] [55%N]])) [LRelDeliver 0]) s
+             /\ Forall good_label (ns_trace (FMsg (InMsgs false [ex_reply [49%N] [55%N]])) [LRelDeliver 0])
+             /\ In (ORet 0 (RetCall (RRes [55%N]))) (hist s) /\ err s = None)
+  /\ (exists s, traces_to ex_cfg (ns_trace (FErr SCOther) [LRelRecvErr]) s /\ err s = Some SCOther).
+Proof.
+  split.
+  - destruct (run (init_of ex_cfg) (ns_trace (FMsg (InMsgs false [ex_reply [49%N] [55%N]])) [LRelDeliver 0])) as [[s oss]|] eqn:E;
+      [|revert E; vm_compute; discriminate].
+    exists s. split; [exists oss; exact E|]. revert E. vm_compute. intros [= <- _].
+    split; [|split; [auto 10|reflexivity]].
+    repeat constructor. eexists; eexists; reflexivity.
+  - destruct (run (init_of ex_cfg) (ns_trace (FErr SCOther) [LRelRecvErr])) as [[s oss]|] eqn:E; [|revert E; vm_compute; discriminate].
+    exists s. split; [exists oss; exact E|]. revert E. vm_compute. intros [= <- _]. reflexivity.
+Qed.
